@@ -12,16 +12,17 @@ def check(tier, seed):
     guards += [("contracts.bd_guards", "unit_check_biorthonormality", {"nsub": n, "kind": k, "timeout_ms": t})
                for n, k in ((1, "ndarray"), (2, "ndarray"), (3, "ndarray"), (2, "sparse-array"), (2, "sparse-matrix"), (3, "mixed"), (1, "sympy-mutable"), (2, "sympy-immutable"), (3, "sympy-mutable"))]
     guards += [("contracts.bd_guards", "unit_normalize_subspaces", {"timeout_ms": t}), ("contracts.bd_guards", "unit_preprocess_sylvester", {"timeout_ms": t})]
-    from .format_props import specs_linalg_misc, specs_keys
-    d.add_units(fold_canaries(run_units(specs_solver(tier) + specs_masks(tier) + guards + specs_keys(tier) + specs_linalg_misc(tier))))
+    from .format_props import specs_linalg_misc, specs_keys, specs_head
+    d.add_units(fold_canaries(run_units(specs_solver(tier) + specs_masks(tier) + guards + specs_keys(tier) + specs_linalg_misc(tier) + specs_head(tier))))
     d.assumptions += [
         "A-NP2 pointwise models (see C16)",
         "sympy three-valued Hermiticity test (`expr.is_hermitian is False`) is taken as given: rejection of symbolic non-Hermitian input is decided only when sympy decides",
     ]
     d.not_decided += [
         "guards other than those under contract (solve_sylvester_diagonal first use, mask fragment, H_0 block-diagonality / zero-diagonal guard, format converters): "
-        "mutually exclusive options and implicit-mode restrictions are exercised by the bounded battery section 'illposed' only; for bi-orthonormality the "
-        "decision procedure (np.allclose of L^dagger R with the identity) is taken from numpy",
+        "of the mutually exclusive options only those decided in the head of block_diagonalize are under contract (contracts.bd_head: custom solver with fully_diagonalize, (R, L) pairs in Hermitian "
+        "mode, and every implicit-mode restriction, each raised before a solver is built); subspace_indices together with subspace_eigenvectors is decided inside operator_to_BlockSeries and exercised by "
+        "the bounded battery section 'illposed' only; for bi-orthonormality the decision procedure (np.allclose of L^dagger R with the identity) is taken from numpy",
     ]
     d.explanation = ("Exceptional postconditions proved on the real code: shared energies between coupled blocks raise ValueError on first use of the pair for "
                      "every block index pair (either orientation) and every right-hand-side type; an accepted pair has |E_a-F_b| > atol everywhere, so every "
